@@ -25,9 +25,15 @@ def schema_from(sj):
     types = [{"kind": "SCALAR", "name": "Date"}]
     for n, vals in sj["enums"].items():
         types.append({"kind": "ENUM", "name": n, "values": list(vals)})
+    dflt = {(d["type"], d["field"]): d["text"] for d in sj.get("defaults", [])}
     for n, t in sj["inputs"].items():
-        types.append({"kind": "INPUT_OBJECT", "name": n, "oneOf": bool(t["oneOf"]),
-                      "inputFields": [{"name": f["name"], "type": tr(f["q"], f["base"])} for f in t["fields"]]})
+        fields = []
+        for f in t["fields"]:
+            fd = {"name": f["name"], "type": tr(f["q"], f["base"])}
+            if (n, f["name"]) in dflt:
+                fd["default"] = dflt[(n, f["name"])]
+            fields.append(fd)
+        types.append({"kind": "INPUT_OBJECT", "name": n, "oneOf": bool(t["oneOf"]), "inputFields": fields})
     types.append({"kind": "OBJECT", "name": "Query", "interfaces": [],
                   "fields": [{"name": "x", "type": tr([], "Int"), "dep": None}]})
     return {"types": types, "roots": {"query": "Query"}, "explicit_roots": False}
@@ -147,6 +153,16 @@ def main(tier, replay=None, selftest=False):
         if len(ck.cov["samples"]) < 3 and v["path"] and c["base"] == "Filter":
             ck.sample({"query": q[:200], "position": v["path"], "alternative": v["alt"]["a"], "skip_none": skip,
                        "assignment": j["input"], "expected_wire": want})
+        if not v.get("valid", True):
+            # null at a non-null position: either the generated types cannot hold it (rejected), or a
+            # Variables value exists that serialises null where the declared type forbids it
+            if "ok" in o:
+                found, val = payload.at_path(o["ok"].get("variables"), v["path"])
+                if found and val is None:
+                    ck.violation(name, rep, "C04: Variables can hold null at the non-null position %s (%s; skip_none=%s, %s) and sends %s\n%s" % (
+                        v["path"], c["base"], skip, norm, "null", json.dumps(o["ok"].get("variables"))[:300]),
+                        case_key="%s|badnull" % c["base"], signature="badnull")
+            continue
         if "ok" not in o:
             ck.violation(name, rep, "C04: a valid assignment is not expressible as Variables (%s; %s at %s): %s\nassignment: %s" % (
                 c["base"], v["alt"]["a"], v["path"], o, json.dumps(j["input"])[:300]), case_key=key, signature=json.dumps(o))
